@@ -8,13 +8,21 @@ W = tempfile.mkdtemp(dir="/verif/.work", prefix="atk.")
 for f in glob.glob("/verif/spec/*.tla"): shutil.copy(f, W)
 cfg = open("/verif/spec/mc/" + base).read()
 cfg = re.sub(r'Drop = "[^"]*"', 'Drop = "%s"' % guard, cfg)
+only = over.pop("only", None)
+workers = over.pop("workers", "16")
+if only:
+    invs = re.search(r"(?m)^INVARIANTS (.*)$", cfg).group(1).split()
+    props = re.search(r"(?m)^PROPERTIES (.*)$", cfg).group(1).split()
+    cfg = re.sub(r"(?m)^INVARIANTS .*$", "INVARIANTS " + (only if only in invs else ""), cfg)
+    cfg = re.sub(r"(?m)^PROPERTIES .*$", "PROPERTIES " + (only if only in props else ""), cfg)
+    cfg = re.sub(r"(?m)^(INVARIANTS|PROPERTIES) $", "", cfg)
 for k, v in over.items():
     cfg = re.sub(r'(?m)^(\s*%s\s*=\s*).*$' % re.escape(k), r'\g<1>' + v, cfg)
 open(os.path.join(W, "a.cfg"), "w").write(cfg)
-p = subprocess.run(["tlc", "-workers", "16", "-metadir", W + "/meta", "-config", "a.cfg", "-dumpTrace", "json", W + "/cex.json", "MC_GalaxyIPAM.tla"],
+p = subprocess.run(["tlc", "-workers", workers, "-metadir", W + "/meta", "-config", "a.cfg", "-dumpTrace", "json", W + "/cex.json", "MC_GalaxyIPAM.tla"],
                    cwd=W, stdout=subprocess.PIPE, stderr=subprocess.STDOUT, text=True, timeout=int(os.environ.get("ATK_TIMEOUT", "900")))
 out = p.stdout
-m = re.search(r"Invariant (\w+) is violated", out)
+m = re.search(r"(?:Invariant|Action property) (\w+) is violated", out)
 st = re.search(r"(\d+) states generated, (\d+) distinct", out)
 res = {"guard": guard, "base": base, "violated": m.group(1) if m else None, "states": int(st.group(2)) if st else None}
 if m and os.path.exists(W + "/cex.json"):
